@@ -401,9 +401,14 @@ def _flush(run, drv, pending):
             # delta1 = 1 - cdf: the cdf is matched to `tol` relative, so delta1 to `tol` absolute
             e1 = abs(m1 - d1)
             e2 = abs(m2 - d2) / d2 if d2 > 1e-300 else abs(m2 - d2)
-            if n <= 2000:
+            # far tail: scipy's nbinom/poisson cdf (incomplete beta/gamma) is itself only accurate to ~1e-4 relative
+            # for values below 1e-100 with extreme parameters (checked against 80-digit arithmetic at mu=746,
+            # var=746.5379585072582, n=27: exact 4.65302410205866e-275, model 4.65302410205884e-275, scipy
+            # 4.65341176023563e-275) — such values are compared to 1e-3 relative
+            tol2 = tol if d2 >= 1e-100 else max(tol, 1e-3)
+            if n <= 2000 and d2 >= 1e-100:
                 worst[kind] = max(worst[kind], e1, e2)
-            if not (e1 <= tol and e2 <= tol):
+            if not (e1 <= tol and e2 <= tol2):
                 run.mismatch(case, [d1, d2], [m1, m2])
             if kind == "nbd" and len(toks) == 4:
                 mu, var = float(case["mu"]), float(case["var"])
